@@ -26,9 +26,9 @@ CONFIG = {
                      'IgnoreCommentAndBlank / the three ParseBlock bodies / BackFindEndLine / FillData / ParserImpl::Next / ThreadedParser::Next '
                      '(loop models in Parse/ParserNext.lean; the iterator under ThreadedParser is represented by its delivery order, C07) / '
                      'GetBlock / operator[]; dmlc::strtof / ParseUnsignedInt as modelled by C14 (StrToNum), libc atoll / strtoll as emulated in ConvSimple'],
-    'partial': ['C11_pipeline (files -> parts -> chunks -> FillData slices -> rows) carries one residual hypothesis: every chunk '
-                'is shorter than 2^63 - nthread bytes (C03 exports no bound on the chunk length); the memory behind a chunk is '
-                'modelled as an arbitrary non-empty function of the chunk',
+    'partial': ['C11_pipeline (files -> parts -> chunks -> FillData slices -> rows) carries no residual size hypothesis any more '
+                '(every chunk is at most 2 * totalSize + 1 bytes long: Parse/ChunkBound.lean part_chunks_length); only a modelling '
+                'assumption remains: the memory behind a chunk is modelled as an arbitrary non-empty function of the chunk',
                 'csv theorems carry the extra hypothesis that the text has no NUL byte inside (files are NUL-free in C11_pipeline)'],
 }
 
